@@ -733,6 +733,7 @@ static int walk_loop(cif_loop_tp *loop, cif_handler_tp *handler, void *context) 
         } else {
             cif_packet_tp *packet = NULL;
             int close_result;
+            int stopped = CIF_FALSE;  /* whether a handler, rather than the end of the packets, stopped the iteration */
 
             while ((result = cif_pktitr_next_packet(iterator, &packet)) == CIF_OK) {
                 int packet_result = walk_packet(packet, handler, context);
@@ -749,6 +750,7 @@ static int walk_loop(cif_loop_tp *loop, cif_handler_tp *handler, void *context) 
 
                 /* control reaches this point only on error */
                 result = packet_result;
+                stopped = CIF_TRUE;
                 break;
             }
 
@@ -756,11 +758,12 @@ static int walk_loop(cif_loop_tp *loop, cif_handler_tp *handler, void *context) 
             cif_packet_free(packet);
 
             /* The iterator must be closed or aborted; we choose to close in case the walker modified the CIF */
-            if (((close_result = cif_pktitr_close(iterator)) != CIF_OK) && (result == CIF_FINISHED)) {
+            if (((close_result = cif_pktitr_close(iterator)) != CIF_OK) && !stopped && (result == CIF_FINISHED)) {
                 result = close_result;
             } /* else suppress any second error in favor of a first one */
 
-            if (result != CIF_FINISHED) {
+            /* a handler's return code may coincide with CIF_FINISHED, so that code alone does not tell */
+            if (stopped || (result != CIF_FINISHED)) {
                 return result;
             }
 
